@@ -15,6 +15,20 @@ def pubsub_script(draw):
   deco = [draw(st.booleans()) for _ in range(nao)]
   n = draw(st.integers(1, 10))
   ops, started = [], set()
+  fine = False
+  if nao >= 2 and draw(st.integers(0, 3)) == 0:
+    # several objects make the FIRST subscription to one signal, each from its own thread, at
+    # the same time: subscribe before start, then start them back to back
+    sig = draw(st.sampled_from(SIGS))
+    kind = draw(st.sampled_from(["fifo", "lifo"]))
+    for a in range(nao):
+      ops.append(["subscribe", a, sig, kind, "outside"])
+    for a in range(nao):
+      ops.append(["start", a])
+      started.add(a)
+    ops.append(["settle"])
+    n = draw(st.integers(0, 3))
+    fine = True
   for _ in range(n):
     k = draw(st.sampled_from(["subscribe", "subscribe", "publish", "publish", "start", "settle"]))
     a = draw(st.integers(0, nao - 1))
@@ -39,12 +53,13 @@ def pubsub_script(draw):
   for sig in SIGS:
     ops.append(["publish", draw(st.integers(0, nao - 1)), sig, draw(st.sampled_from(["outside", "handler"]))])
   ops.append(["settle"])
-  return {"deco": deco, "ops": ops, "schedule": [list(x) for x in draw(schedule_st)]}
+  sched_ = draw(st.lists(st.tuples(st.integers(0, 6), st.integers(1, 9)), max_size=150)) if fine else draw(schedule_st)
+  return {"deco": deco, "ops": ops, "schedule": [list(x) for x in sched_]}
 
 
 class C07(Prop):
   id = "C07"
-  quick_examples = 300
+  quick_examples = 600
   thorough_examples = 4000
   rule = ("Generated scripts under the deterministic scheduler: 1-3 ActiveObjects, each with or "
           "without the spy decorator on its states; up to 10 operations from subscribe(signal, "
@@ -67,6 +82,30 @@ class C07(Prop):
 
   def strategy(self, tier):
     return pubsub_script()
+
+  def extra(self, tier, seed, shard, nshards, stats):
+    """A regular family of schedules for the narrowest race of this property: two objects make
+    the first subscription to one signal from their own threads at the same moment.  Periodic
+    schedules (thread i mod 3 runs q lines) for every q in 1..60, with and without a
+    publication queued before start, decorated or not."""
+    idx = 0
+    for deco in ([False, False], [True, True]):
+      for q in range(1, 61):
+        for pre in ([], [["publish", 0, "VA", "outside"]]):
+          idx += 1
+          if idx % nshards != shard:
+            continue
+          case = {"deco": deco,
+                  "ops": [["subscribe", 0, "VA", "fifo", "outside"], ["subscribe", 1, "VA", "fifo", "outside"]] + pre +
+                         [["start", 0], ["start", 1], ["settle"], ["publish", 0, "VA", "outside"],
+                          ["publish", 0, "VB", "outside"], ["settle"]],
+                  "schedule": [[i % 3, q] for i in range(60)]}
+          try:
+            self.check(case, stats)
+          except PropertyViolation as v:
+            yield case, v
+            return
+    stats.classes["periodic_schedule_family"] = idx
 
   def check(self, case, stats):
     ao = detsched.install()
